@@ -198,6 +198,8 @@ def run(prop_id, tier, seed, procs, budget=None):
         seen.add(key)
         if key in finding_cases:
             continue  # reported below through the explicit replay of the finding
+        if len(confirmed) >= 40:
+            continue  # enough confirmed counter-examples; the raw total is reported separately
         try:
             again = confirm(mod, v)
         except InternalError as exc:
@@ -294,6 +296,11 @@ def run(prop_id, tier, seed, procs, budget=None):
     if counters:
         print("  counters: " + ", ".join(f"{k}={v}" for k, v in sorted(counters.items())))
     if confirmed:
+        tally = {}
+        for v in confirmed:
+            k = (v.get("subcheck", ""), str((v.get("case") or {}).get("algorithm", "")))
+            tally[k] = tally.get(k, 0) + 1
+        print("  confirmed violations by (subcheck, algorithm): " + ", ".join(f"{k[0]}/{k[1]}={n}" for k, n in sorted(tally.items())))
         written = 0
         per = {}
         for v in confirmed:
